@@ -2,6 +2,7 @@ import H264.SpsExact
 import H264.PpsExact
 import H264.SliceExact
 import H264.SpsRangesAll
+import H264.History
 /-! # C16 — Accepted parameter sets and slice headers satisfy documented range invariants
 
 Every statement has the form "the parser returned success on *some* input ⇒ the result is within the bounds", for
@@ -101,5 +102,21 @@ theorem slice_accepted_in_range (ctx : Slice.Ctx) (hdr : Slice.NalHdr) (s s' : S
       h.frameNum < 2 ^ (sps.log2MaxFrameNumMinus4 + 4) ∧ Slice.PocLt sps h.picOrderCntLsb ∧
       Slice.NraLe h.numRefIdxActive ∧ (∀ q, h.sliceQs = some q → q ≤ 51) ∧ h.sliceTypeId ≤ 9 :=
   Slice.C16_slice ctx hdr s s' h sid pid hok
+
+/-! ### the quantifier "under all contexts of previously accepted parameter sets", made explicit as an induction over
+the history of feeds (`H264/History.lean`) -/
+
+/-- after **any** sequence of SPS / PPS NAL payloads fed to the parsers (accepted ones stored, rejected ones dropped),
+every SPS in the context sits under its own id and is within the SPS bounds, and every PPS sits under its own id and
+was accepted against an in-range SPS with the id it names -/
+theorem reachable_context_in_range (ops : List History.Op) : History.Inv (History.run ops) := History.reachable_inv ops
+
+/-- a slice header accepted in any reachable context returns exactly the context entries named by its ids, and they
+satisfy the stored-value bounds -/
+theorem reachable_slice_params (ops : List History.Op) (hdr : Slice.NalHdr) (s s' : Src) (h : Slice.SliceHeader)
+    (sid pid : Nat) (hok : Slice.parseSliceHeader (History.sctx (History.run ops)) hdr s = .ok ((h, sid, pid), s')) :
+    ∃ pps sps, Ctx.get (History.run ops).pps pid = some pps ∧ pps.ppsId = pid ∧ pps.spsId = sid ∧
+      Ctx.get (History.run ops).sps sid = some sps ∧ sps.spsId = sid ∧ History.SpsGood sps ∧ History.PpsGood pps :=
+  History.reachable_slice_params ops hdr s s' h sid pid hok
 
 end C16
